@@ -26,7 +26,10 @@ def main():
     budget = 30
     also = []
     args = sys.argv[4:]
+    label = i
     for k, a in enumerate(args):
+        if a == "--label":
+            label = args[k + 1]
         if a == "--budget":
             budget = int(args[k + 1])
         if a == "--also":
@@ -80,7 +83,7 @@ def main():
             sh("git checkout -- evidence", cwd=VERIF)
         meta["checks"] = detected
         meta["detected_by"] = sorted(p for p, d in detected.items() if d["exit"] == 1)
-        dst = os.path.join(VERIF, "seeded", "%s-%s" % (prop, i))
+        dst = os.path.join(VERIF, "seeded", "%s-%s" % (prop, label))
         os.makedirs(dst, exist_ok=True)
         shutil.copy(patch, os.path.join(dst, "patch.diff"))
         shutil.copy(demo, os.path.join(dst, "demo_test.go"))
